@@ -18,6 +18,7 @@ import (
 	"bytes"
 	"encoding/json"
 	"fmt"
+	"math/big"
 	"strconv"
 	"strings"
 	"time"
@@ -563,4 +564,70 @@ func locationOfLen(n string) string {
 		return "127.0.0.1"[:9][:l]
 	}
 	return "127.0.0.1/" + strings.Repeat("a", l-10)
+}
+
+// checkRequests asks the statistics endpoint for every held week through every spelling of a number the
+// query-string grammar allows or nearly allows (values beyond 32 bits that alias a held week, signs, blanks,
+// other bases, fractions). Oracle, from an arbitrary-precision reading of the request: only a plain decimal
+// number that is aligned and not in the future may be answered, and the answer is labelled with that number.
+func (w *opsWorld) checkRequests() (string, string) {
+	held := []uint32{w.M.Offset, w.M.Offset + mWeek}
+	for i := range w.M.Archive {
+		held = append(held, uint32(i)*mWeek)
+	}
+	two32 := new(big.Int).Lsh(big.NewInt(1), 32)
+	two64 := new(big.Int).Lsh(big.NewInt(1), 64)
+	var qs []string
+	for _, h := range held {
+		hb := new(big.Int).SetUint64(uint64(h))
+		for _, k := range []int64{1, 2, 5} {
+			qs = append(qs, new(big.Int).Add(hb, new(big.Int).Mul(two32, big.NewInt(k))).String())
+		}
+		qs = append(qs, new(big.Int).Add(hb, two64).String(), fmt.Sprintf("-%d", h), fmt.Sprintf("%%2B%d", h), fmt.Sprintf("%%20%d", h),
+			fmt.Sprintf("0x%x", h), fmt.Sprintf("%d.0", h), fmt.Sprintf("%de0", h), fmt.Sprintf("0%d", h), fmt.Sprintf("%d_", h), fmt.Sprintf("%d&timeslot_offset=7", h))
+	}
+	qs = append(qs, "", "abc", "4294965248", "4294967295", fmt.Sprint(w.M.Offset+2*mWeek), fmt.Sprint(w.M.Offset+1), fmt.Sprint(w.M.Offset+mWeek-1))
+	for _, q := range qs {
+		var code int
+		var body []byte
+		if p := safely(func() { code, body = w.httpDo("GET", "/api/v1/all-device-stats?timeslot_offset="+q, nil) }); p != "" {
+			w.Poisoned = true
+			return "requests/panic", p
+		}
+		// reference reading of the first value of the parameter
+		first := strings.SplitN(q, "&", 2)[0]
+		first = strings.NewReplacer("%2B", "+", "%20", " ").Replace(first)
+		n, plain := new(big.Int), first != ""
+		for _, c := range first {
+			if c < '0' || c > '9' {
+				plain = false
+			}
+		}
+		if plain {
+			n.SetString(first, 10)
+		}
+		ok := plain && n.Cmp(two32) < 0
+		var v uint32
+		if ok {
+			v = uint32(n.Uint64())
+			ok = v%mWeek == 0 && v <= w.M.Offset+mWeek
+		}
+		if !ok {
+			if code == 200 {
+				return "requests/served-what-must-be-refused", fmt.Sprintf("timeslot_offset=%q answered 200", q)
+			}
+			continue
+		}
+		if code != 200 {
+			return "requests/refused-held-week", fmt.Sprintf("timeslot_offset=%q -> %d", q, code)
+		}
+		var st statsJSON
+		if err := json.Unmarshal(body, &st); err != nil {
+			return "requests/malformed", err.Error()
+		}
+		if st.TimeslotOffset != v {
+			return "requests/label", fmt.Sprintf("timeslot_offset=%q labelled %d", q, st.TimeslotOffset)
+		}
+	}
+	return "", ""
 }
